@@ -175,7 +175,11 @@ fn fingerprint(doc: &Doc, api: &str, layer: &str, cut: &str, symptom: &str) -> S
 
 fn main() {
     vmc::run("C13", "fault_enumeration", |ctx| {
-        let docs = vnd::corpus(ctx.thorough());
+        let mut docs = vnd::corpus(ctx.thorough());
+        // engineered documents (vnd::extra): length prefixes whose low bytes are zero (BCF l_shared = 256 / 512 /
+        // 65536, l_indiv = 256, BAM block_size = 256 / 512, n_no_coor = 256, a CRAM container length that is a
+        // multiple of 256), so that a reader decoding a zero-padded partial prefix as "0 = end of file" is exposed
+        docs.extend(vnd::extra(ctx.thorough()).into_iter().filter(|d| d.name.starts_with("eng-")));
         ctx.rule("every byte offset 0..=len of every corpus document in scope (BGZF, BAM, BCF, CRAM, SAM.gz, VCF.gz, BAI, CSI, tabix, gzi, fai, crai) x reader API; the three > 64 KiB documents at every offset within 64 bytes of a block boundary plus every 251st byte; raw BAM / BCF / CSI / tabix streams at every uncompressed offset; BGZF payload through read(4096) / fill_buf / read_to_end / read(64 KiB) / read(128 KiB) / read_exact(7); distinct = distinct (document, prefix log) pairs");
         ctx.assume("the log of the complete file (read by the same sync reader) equals what was written (decided by C05-C10)");
         ctx.assume("CRAM documents differ byte-wise between processes (std RandomState in the CRAM writer): a replay by index addresses the same offset of a structurally identical document");
